@@ -4,6 +4,7 @@ from .roles import PERMIT_ADT, classify_write, adt_of
 from .facts import strip_generics
 from .analysis import sources
 from . import rules_C01
+from . import preds
 from . import poscontrol
 
 TECHNIQUE = 'MIR event-CFG rules: permit typestate, must-pass-through on return/take paths, panic-site inventory, lock-region analysis (may-init dataflow of MutexGuard locals)'
@@ -215,6 +216,11 @@ def run(ctx):
                 ctx.ob('R02.4', 'Option::unwrap only on the typestate-guarded inner option', ok, ctx.where(b, t.line),
                        'unwrap() of %s can panic inside get()/drop/take' % ban.resolve_operand(t.args[0]) if not ok else '',
                        construct='panic:option-unwrap:' + b.name)
+            elif preds.std_panicking(names):
+                n_sites += 1
+                ctx.ob('R02.4', 'no std call that panics for some argument values', False, ctx.where(b, t.line),
+                       '%s panics by contract for some inputs (overflow / out of range): reachable from get()/drop/take' % '/'.join(preds.std_panicking(names)),
+                       construct='panic:std:' + b.name)
             elif any(n.startswith('std::rt::begin_panic') or n.startswith('core::panicking') or n.startswith('std::panicking')
                      or n in ('std::process::abort', 'std::process::exit') for n in names):
                 n_sites += 1
